@@ -16,34 +16,54 @@ pub const POOL: [u32; 6] = [1, 7, 118, 4000, 77_777, 9_999_999];
 pub const POOL_ROOTS: [u32; 6] = [1, 118, 119, 4000, 77_777, 9_999_999];
 /// consecutive ids (comparisons that are off by one only matter for adjacent values)
 pub const POOL_ADJACENT: [u32; 6] = [1, 2, 3, 4, 5, 6];
+/// terms of the 70 000-term heap whose ordered pairs are asked for child_of / parent_of: the route 70000, 35000,
+/// ... 1, the route 65537, 32768, ... 1 (which shares only its top with the first), and the 16-bit border
+const HEAP_PAIRS: [u32; 24] = [1, 2, 3, 4, 8, 17, 34, 68, 118, 136, 273, 546, 1093, 2187, 4375, 8750, 17_500, 32_768, 35_000, 65_535, 65_536, 65_537, 69_999, 70_000];
+
+/// First ordered pair (a, b) of `ids` for which child_of / parent_of is not membership in the model's closure.
+fn pairs_diff(ont: &Ontology, r: &RefOnt, ids: &[u32]) -> Option<(String, String, String)> {
+    for a in ids {
+        let ta = &r.terms[a];
+        for b in ids {
+            let (Some(x), Some(y)) = (ont.hpo(*a), ont.hpo(*b)) else {
+                return Some(("Ontology::hpo".into(), "term missing".into(), format!("{a} or {b}")));
+            };
+            let want = ta.ancestors.contains(b);
+            if x.child_of(&y) != want {
+                return Some(("HpoTerm::child_of".into(), "child_of is not membership in the ancestor closure".into(), format!("{a}.child_of({b}) = {} expected {}", !want, want)));
+            }
+            if y.parent_of(&x) != want {
+                return Some(("HpoTerm::parent_of".into(), "parent_of is not membership in the ancestor closure".into(), format!("{b}.parent_of({a}) = {} expected {}", !want, want)));
+            }
+        }
+    }
+    None
+}
 
 /// child_of / parent_of must be exactly closure membership for every ordered pair.
 pub fn check_pairs(ctx: &mut Ctx, ont: &Ontology, r: &RefOnt, path: &str, case: &dyn Fn() -> Value) {
-    let res = crate::ctx::guard(|| {
-        let mut bad: Option<(String, String, String)> = None;
-        'outer: for (a, ta) in &r.terms {
-            for b in r.terms.keys() {
-                let (Some(x), Some(y)) = (ont.hpo(*a), ont.hpo(*b)) else {
-                    bad = Some(("Ontology::hpo".into(), "term missing".into(), format!("{a} or {b}")));
-                    break 'outer;
-                };
-                let want = ta.ancestors.contains(b);
-                if x.child_of(&y) != want {
-                    bad = Some(("HpoTerm::child_of".into(), "child_of is not membership in the ancestor closure".into(), format!("{a}.child_of({b}) = {} expected {}", !want, want)));
-                    break 'outer;
-                }
-                if y.parent_of(&x) != want {
-                    bad = Some(("HpoTerm::parent_of".into(), "parent_of is not membership in the ancestor closure".into(), format!("{b}.parent_of({a}) = {} expected {}", !want, want)));
-                    break 'outer;
-                }
-            }
-        }
-        bad
-    });
-    match res {
+    let ids: Vec<u32> = r.terms.keys().copied().collect();
+    check_pairs_at(ctx, ont, r, &ids, path, case);
+}
+
+/// The same for every ordered pair of the listed terms only (shapes too big for all pairs).
+pub fn check_pairs_at(ctx: &mut Ctx, ont: &Ontology, r: &RefOnt, ids: &[u32], path: &str, case: &dyn Fn() -> Value) {
+    match crate::ctx::guard(|| pairs_diff(ont, r, ids)) {
         Ok(None) => {}
         Ok(Some((site, sig, det))) => ctx.violation(&site, &format!("[{path}] {sig}"), json!({"path": path, "case": case(), "difference": det})),
         Err(msg) => ctx.violation("HpoTerm::child_of", &format!("[{path}] panics"), json!({"path": path, "case": case(), "observed": msg})),
+    }
+}
+
+/// `per_ont` oracle of C01 for the ontology sequences: the observation against the model, then child_of /
+/// parent_of for every ordered pair.
+fn obs_and_pairs(ont: &Ontology, r: &RefOnt, mode: Mode) -> Option<(String, String, String)> {
+    match Obs::of(ont) {
+        Err(i) => Some((i.site, "read API inconsistent or panicking".to_string(), i.what)),
+        Ok(o) => o.diff(&Obs::expected(r, mode), false).or_else(|| {
+            let ids: Vec<u32> = r.terms.keys().copied().collect();
+            pairs_diff(ont, r, &ids)
+        }),
     }
 }
 
@@ -68,10 +88,19 @@ fn nontrivial(d: &Dag) -> bool {
 
 /// Observed ontology must be consistent with its own direct parent links (used for sub_ontology results).
 pub fn self_consistent(ctx: &mut Ctx, ont: &Ontology, path: &str, mode: Mode, case: &dyn Fn() -> Value) {
+    let _ = self_consistent_model(ctx, ont, path, mode, case);
+}
+
+/// The same; returns the model derived from the facts the result itself reports (None when the observation
+/// could not be taken or a parent id dangles).
+fn self_consistent_model(ctx: &mut Ctx, ont: &Ontology, path: &str, mode: Mode, case: &dyn Fn() -> Value) -> Option<RefOnt> {
     ctx.exec();
     ctx.validated();
     match Obs::of(ont) {
-        Err(inc) => ctx.violation(&inc.site, &format!("[{path}] read API inconsistent or panicking"), json!({"path": path, "case": case(), "observed": inc.what})),
+        Err(inc) => {
+            ctx.violation(&inc.site, &format!("[{path}] read API inconsistent or panicking"), json!({"path": path, "case": case(), "observed": inc.what}));
+            None
+        }
         Ok(obs) => {
             // facts as the result itself reports them
             let mut f = Facts::default();
@@ -96,7 +125,7 @@ pub fn self_consistent(ctx: &mut Ctx, ont: &Ontology, path: &str, mode: Mode, ca
             for (c, p) in &f.edges {
                 if !ids.contains(p) {
                     ctx.violation("HpoTerm::parent_ids", &format!("[{path}] parent id does not resolve"), json!({"case": case(), "difference": format!("term {c} lists parent {p}")}));
-                    return;
+                    return None;
                 }
             }
             let r = RefOnt::derive(&f);
@@ -115,6 +144,7 @@ pub fn self_consistent(ctx: &mut Ctx, ont: &Ontology, path: &str, mode: Mode, ca
                 ctx.violation(&site, &format!("[{path}] not consistent with its own direct links: {sig}"), json!({"path": path, "case": case(), "difference": det}));
             }
             ctx.outcome(obs.fingerprint());
+            Some(r)
         }
     }
 }
@@ -124,7 +154,10 @@ pub fn run(ctx: &mut Ctx) {
     ctx.assumptions = vec![
         "acyclic is_a graphs only; term ids < 10^7".into(),
         "ids influence the code only through their relative order and as array indices, so labelled DAGs x an ascending id pool cover all id assignments (DESIGN.md 2.4)".into(),
+        "in addition every graph on <= 4 nodes and four six-term shapes are built on ids spread over the whole range (around 2^16, 2^20, the last 4096-id page below 10^7), should an id's magnitude matter after all".into(),
         "HashMap iteration order is not controlled; observations are sorted".into(),
+        "which calls sub_ontology accepts is C14's statement: a refusal is reported only when every leaf is a proper descendant of root; results are checked against the closure of the direct links they report themselves".into(),
+        "only the graph part of the observation is compared (ids, direct parents, children, ancestors and their iterator twins, as sets); names, flags, records, information content, categories and the version text belong to other properties".into(),
     ];
     let thorough = ctx.tier.thorough();
 
@@ -167,6 +200,105 @@ pub fn run(ctx: &mut Ctx) {
             }
             ctx.sample(|| json!({"dag": d.describe(), "ids": &POOL[..n], "term_orders": tperms.len(), "link_orders": eperms.len()}));
         }
+    }
+
+    // ---- 1b. the same graphs on ids spread over the whole id range: the generic pool reaches 77 777 at most for
+    // n <= 5, so an id table that is paged, or a memo whose key is narrowed, would never meet an id it treats
+    // differently. Four pools: spread over the range; around 2^16; around 2^20; the top of the range, across the
+    // last 4096-id page border (9 998 336 = 2441 * 4096)
+    {
+        const WIDE: [[u32; 4]; 4] = [[1, 65_536, 1_048_577, 9_999_999], [65_535, 65_536, 65_537, 131_072], [1_048_575, 1_048_576, 1_048_577, 2_097_152], [9_998_335, 9_998_336, 9_999_998, 9_999_999]];
+        for n in 1..=4usize {
+            let dags = all_dags(n);
+            let tperms = permutations(n);
+            let few = rotations_and_reverse(n);
+            ctx.space(&format!("builder/D{n}/ids-over-the-whole-range"), &format!("{} labelled DAGs x id pools {:?} (first {n} ids of each) x {} term orders (n = 4: all 24 for the first pool, rotations + reverse for the others), links in canonical order", dags.len(), WIDE, if n < 4 { tperms.len() } else { 24 }));
+            for d in &dags {
+                if !ctx.take() {
+                    continue;
+                }
+                ctx.state();
+                if nontrivial(d) {
+                    ctx.nontrivial();
+                }
+                for (pi, pool) in WIDE.iter().enumerate() {
+                    let base = Facts::from_dag(d, pool);
+                    let r = RefOnt::derive(&base);
+                    for tp in if n < 4 || pi == 0 { &tperms } else { &few } {
+                        let f = Facts { terms: apply_perm(&base.terms, tp), ..base.clone() };
+                        run_builder(ctx, &f, &r, "ids over the whole range, term order");
+                    }
+                }
+                ctx.sample(|| json!({"dag": d.describe(), "id_pools": WIDE, "term_orders": tperms.len()}));
+            }
+        }
+        // six-term shapes over [1, 118, 2^16, 2^20+1, 9 998 336, 9 999 999] in both id directions, through every path
+        let pool6: [u32; 6] = [1, 118, 65_536, 1_048_577, 9_998_336, 9_999_999];
+        let shapes: Vec<(Vec<(usize, usize)>, &str)> = vec![
+            ((1..6).map(|k| (k, k - 1)).collect(), "chain of 6"),
+            ((1..6).flat_map(|c| (0..c).map(move |p| (c, p))).collect(), "total order on 6 (every term is_a all earlier ones)"),
+            (vec![(1, 0), (2, 1), (3, 1), (4, 2), (4, 3), (5, 4)], "diamond with a tail"),
+            (vec![(1, 0), (2, 1), (3, 1), (4, 1), (5, 2), (5, 3), (5, 4)], "three parents"),
+        ];
+        ctx.space("ids-over-the-whole-range/six-terms/all-paths", &format!("{} shapes (chain, total order, diamond with a tail, three parents) over ids {:?}, descendants with larger ids and (below HP:118) with smaller ids x Builder (ascending, descending, links reversed), binary v1-v3 (ascending / descending records), hp.obo (both stanza orders, both loaders): observation against the model and child_of / parent_of for every ordered pair", shapes.len(), pool6));
+        for (edges, what) in &shapes {
+            for reversed in [false, true] {
+                if !ctx.take() {
+                    continue;
+                }
+                ctx.state();
+                ctx.nontrivial();
+                // node 0 = HP:1, node 1 = HP:118, nodes 2..6 = the four large ids ascending or descending
+                let id = |k: usize| if reversed && k >= 2 { pool6[7 - k] } else { pool6[k] };
+                let mut base = Facts::default();
+                base.version = (2024, 2, 29);
+                for k in 0..6 {
+                    base.terms.push(Facts::term(id(k), &format!("N{k}")));
+                }
+                for &(c, p) in edges {
+                    base.edges.push((id(c), id(p)));
+                }
+                let r = RefOnt::derive(&base);
+                let mut desc = base.clone();
+                desc.terms.reverse();
+                let mut rev = desc.clone();
+                rev.edges.reverse();
+                for (f, oname) in [(&base, "ascending"), (&desc, "descending"), (&rev, "descending, links reversed")] {
+                    run_builder(ctx, f, &r, oname);
+                    for version in [1u8, 2, 3] {
+                        ctx.transitions(f.n_steps());
+                        let case = || json!({"facts": f.to_json(), "format_version": version, "order": oname});
+                        match drive::from_bytes(&encode::encode(f, &EncOpts::v(version))) {
+                            Ok(Ok(ont)) => {
+                                check_against_model(ctx, &ont, &r, Mode::Defaults, &format!("binary v{version}"), &case);
+                                check_pairs(ctx, &ont, &r, &format!("binary v{version}"), &case);
+                            }
+                            other => {
+                                ctx.exec();
+                                ctx.violation("Ontology::from_bytes", &format!("[binary v{version}] rejects or panics on a file laid out as documented"), json!({"case": case(), "observed": format!("{:?}", other.map(|r| r.map(|_| ())))}));
+                            }
+                        }
+                    }
+                    for transitive in [false, true] {
+                        ctx.transitions(f.n_steps());
+                        let rendered = jax::render(f, &JaxOpts::default());
+                        let case = || json!({"facts": f.to_json(), "order": oname, "transitive_loader": transitive, "hp.obo": rendered.obo});
+                        match jax::load(&rendered, transitive) {
+                            Ok(Ok(ont)) => {
+                                check_against_model(ctx, &ont, &r, Mode::Defaults, "obo", &case);
+                                check_pairs(ctx, &ont, &r, "obo", &case);
+                            }
+                            other => {
+                                ctx.exec();
+                                ctx.violation("Ontology::from_standard", "[obo] rejects or panics on valid JAX files", json!({"case": case(), "observed": format!("{:?}", other.map(|r| r.map(|_| ())))}));
+                            }
+                        }
+                    }
+                }
+                ctx.sample(|| json!({"shape": what, "ids": (0..6).map(id).collect::<Vec<u32>>()}));
+            }
+        }
+        jax::cleanup();
     }
 
     // ---- 2. Builder, D5 (thorough: all 120 term orders; quick: asc/desc/rotations) and D6 thorough
@@ -221,7 +353,7 @@ pub fn run(ctx: &mut Ctx) {
     // ---- 2b. structured large graphs (depth / fan sizes across the inline limit of 30) in several supply orders
     {
         let family = super::common::large_family();
-        ctx.space("large-structured/builder+binary+obo", &format!("{} large shapes (chains 31..100, fans 29..40, binary tree, ladder, total order, joined chains; both id directions) x 5 supply orders via Builder, x asc/desc record order via binary v3 and hp.obo", family.len()));
+        ctx.space("large-structured/builder+binary+obo", &format!("{} large shapes (chains 31..100, fans 29..40, binary tree, ladder, total order, joined chains; both id directions) x 5 supply orders via Builder, x asc/desc record order via binary v3 and hp.obo; observation against the model and child_of / parent_of for every ordered pair on every path", family.len()));
         for (base, what) in &family {
             if !ctx.take() {
                 continue;
@@ -260,6 +392,7 @@ pub fn run(ctx: &mut Ctx) {
                     match drive::from_bytes(&bytes) {
                         Ok(Ok(ont)) => {
                             check_against_model(ctx, &ont, &r, Mode::Defaults, "binary v3", &case);
+                            check_pairs(ctx, &ont, &r, "binary v3", &case);
                         }
                         other => {
                             ctx.exec();
@@ -270,6 +403,7 @@ pub fn run(ctx: &mut Ctx) {
                     match jax::load(&jax::render(&f, &JaxOpts::default()), false) {
                         Ok(Ok(ont)) => {
                             check_against_model(ctx, &ont, &r, Mode::Defaults, "obo", &case);
+                            check_pairs(ctx, &ont, &r, "obo", &case);
                         }
                         other => {
                             ctx.exec();
@@ -336,7 +470,8 @@ pub fn run(ctx: &mut Ctx) {
                 if pf.edges.len() > 1 {
                     let mut g = pf.clone();
                     g.edges.reverse();
-                    variants.push((g, EncOpts::v(version), "parent ids reversed inside records"));
+                    // (refuse-or-exact: whether a reader has to accept ids in another than ascending order is not stated)
+                    variants.push((g, EncOpts::list_order(version), "parent ids reversed inside records"));
                 }
                 let mut o = EncOpts::v(version);
                 o.omit_empty_parent_records = true;
@@ -360,6 +495,10 @@ pub fn run(ctx: &mut Ctx) {
                         Ok(Ok(ont)) => {
                             check_against_model(ctx, &ont, &r, Mode::Defaults, &format!("binary v{version}"), &case);
                             check_pairs(ctx, &ont, &r, &format!("binary v{version}"), &case);
+                        }
+                        Ok(Err(_)) | Err(_) if o.ids_in_list_order => {
+                            ctx.exec();
+                            ctx.bump("refused: parent ids inside a record not ascending", 1);
                         }
                         Ok(Err(e)) => {
                             ctx.exec();
@@ -466,7 +605,7 @@ pub fn run(ctx: &mut Ctx) {
     // ---- 5. sub_ontology results are closed under their own links
     for n in 2..=4usize {
         let dags = all_dags(n);
-        ctx.space(&format!("sub_ontology/D{n}/all-roots-x-leaf-subsets"), &format!("{} labelled DAGs x every root x every non-empty leaf subset below it", dags.len()));
+        ctx.space(&format!("sub_ontology/D{n}/all-roots-x-leaf-subsets"), &format!("{} labelled DAGs x every root x every non-empty subset of (root and the terms below it) as leaves: the result is consistent with its own direct links (ancestors, children, child_of / parent_of for every ordered pair); a refusal is tolerated when root is among the leaves", dags.len()));
         for d in &dags {
             if !ctx.take() {
                 continue;
@@ -492,10 +631,20 @@ pub fn run(ctx: &mut Ctx) {
                     let res = crate::ctx::guard(|| src.sub_ontology(src.hpo(root).unwrap(), leaves.iter().map(|l| src.hpo(*l).unwrap()).collect::<Vec<_>>()).map_err(|e| e.to_string()));
                     let case = || json!({"source": base.to_json(), "root": root, "leaves": leaves});
                     match res {
-                        Ok(Ok(sub)) => self_consistent(ctx, &sub, "sub_ontology", Mode::Minimal, &case),
+                        Ok(Ok(sub)) => {
+                            if let Some(own) = self_consistent_model(ctx, &sub, "sub_ontology", Mode::Minimal, &case) {
+                                check_pairs(ctx, &sub, &own, "sub_ontology", &case);
+                            }
+                        }
+                        // the function documents "fails if root is not an ancestor of all leaves", and a term is not its
+                        // own ancestor: whether a leaf that IS root is accepted is C14's statement, not this one's
+                        Ok(Err(_)) if leaves.contains(&root) => {
+                            ctx.exec();
+                            ctx.bump("sub_ontology_refused_with_root_among_the_leaves", 1);
+                        }
                         Ok(Err(e)) => {
                             ctx.exec();
-                            ctx.violation("Ontology::sub_ontology", "[sub_ontology] refused although every leaf is root or below root", json!({"case": case(), "observed": e}));
+                            ctx.violation("Ontology::sub_ontology", "[sub_ontology] refused although every leaf is below root", json!({"case": case(), "observed": e}));
                         }
                         Err(p) => {
                             ctx.exec();
@@ -507,11 +656,77 @@ pub fn run(ctx: &mut Ctx) {
             ctx.sample(|| json!({"dag": d.describe(), "ids": &POOL[..n], "roots": n}));
         }
     }
+    // ---- 5b. sub_ontology of large, decoded and flagged sources, and of a sub-ontology: the copy is made in hash
+    // order from whatever the source's constructor left behind
+    {
+        let family = super::common::large_family();
+        ctx.space("sub_ontology/large-sources", &format!("{} large shapes x source from the Builder / decoded from binary v3 (descending records, the middle term flagged obsolete and replaced) x root HP:1 / HP:118 x leaves {{last}}, {{last, middle}} (where below root), and the sub-ontology of each result for its last term: consistent with its own direct links incl. child_of / parent_of for every ordered pair", family.len()));
+        for (base, what) in &family {
+            if !ctx.take() {
+                continue;
+            }
+            ctx.state();
+            ctx.nontrivial();
+            let n = base.terms.len();
+            let r = RefOnt::derive(base);
+            let (last, middle) = (base.terms[n - 1].id, base.terms[n / 2].id);
+            let mut flagged = base.clone();
+            flagged.terms[n / 2].obsolete = true;
+            flagged.terms[n / 2].replacement = Some(118);
+            flagged.terms.reverse();
+            flagged.edges.reverse();
+            ctx.transitions(2 * base.n_steps());
+            let sources = [("Builder", drive::build(base, Mode::Minimal).ok()), ("binary v3", drive::from_bytes(&encode::encode(&flagged, &EncOpts::v(3))).ok().and_then(|x| x.ok()))];
+            for (sname, src) in &sources {
+                let Some(src) = src else {
+                    ctx.exec();
+                    ctx.violation("Builder", &format!("[{sname}] construction fails on valid facts"), json!({"shape": what}));
+                    continue;
+                };
+                for root in [1u32, 118] {
+                    for leaves in [vec![last], vec![last, middle]] {
+                        if leaves.iter().any(|l| !r.terms[l].ancestors.contains(&root)) {
+                            continue;
+                        }
+                        ctx.transitions(1 + leaves.len() as u64);
+                        let case = || json!({"source": what, "source_built_by": sname, "root": root, "leaves": leaves});
+                        let sub_of = |o: &Ontology, ls: &[u32]| crate::ctx::guard(|| o.sub_ontology(o.hpo(root).unwrap(), ls.iter().map(|l| o.hpo(*l).unwrap()).collect::<Vec<_>>()).map_err(|e| e.to_string()));
+                        match sub_of(src, &leaves) {
+                            Ok(Ok(sub)) => {
+                                if let Some(own) = self_consistent_model(ctx, &sub, "sub_ontology", Mode::Minimal, &case) {
+                                    check_pairs(ctx, &sub, &own, "sub_ontology", &case);
+                                    // ... and a sub-ontology of the result (leaf below root in the result's own links)
+                                    if own.terms.get(&last).is_some_and(|t| t.ancestors.contains(&root)) {
+                                        match sub_of(&sub, &[last]) {
+                                            Ok(Ok(sub2)) => {
+                                                if let Some(own2) = self_consistent_model(ctx, &sub2, "sub_ontology of a sub_ontology", Mode::Minimal, &case) {
+                                                    check_pairs(ctx, &sub2, &own2, "sub_ontology of a sub_ontology", &case);
+                                                }
+                                            }
+                                            other => {
+                                                ctx.exec();
+                                                ctx.violation("Ontology::sub_ontology", "[sub_ontology of a sub_ontology] refused or panics although the leaf is below root", json!({"case": case(), "observed": format!("{:?}", other.map(|r| r.map(|_| ())))}));
+                                            }
+                                        }
+                                    }
+                                }
+                            }
+                            other => {
+                                ctx.exec();
+                                ctx.violation("Ontology::sub_ontology", "[sub_ontology] refused or panics although every leaf is below root", json!({"case": case(), "observed": format!("{:?}", other.map(|r| r.map(|_| ())))}));
+                            }
+                        }
+                    }
+                }
+            }
+            ctx.sample(|| json!({"shape": what, "n_terms": n, "last": last, "middle": middle}));
+        }
+    }
     // ---- very deep shapes (beyond 512 / 1000 / 1024 / 2048 levels): ancestors-first and descendants-first supply
     // order through the Builder, descendants-first through the decoder
     {
         let family = super::common::very_deep_family();
-        ctx.space("very-deep/builder+binary", &format!("{} shapes (chains of 1100 and 2100 terms with a shortcut, a ladder of 14 levels) x ascending / descending supply order via Builder, descending via binary v3: whole observation against the model", family.len()));
+        ctx.space("very-deep/builder+binary", &format!("{} shapes (chains of 1100 and 2100 terms with a shortcut, a ladder of 14 levels) x ascending / descending supply order via Builder, descending via binary v3: observation against the model, child_of / parent_of for every ordered pair of about 25 selected terms (both ends, branch points, depths around 255 ... 2049)", family.len()));
         for (base, what) in &family {
             if !ctx.take() {
                 continue;
@@ -519,6 +734,9 @@ pub fn run(ctx: &mut Ctx) {
             ctx.state();
             ctx.nontrivial();
             let r = RefOnt::derive(base);
+            // terms whose pairs are asked for child_of / parent_of: both ends, the branch points, the neighbours of
+            // every round-number depth (ancestor sets of 255 ... 2100 ids)
+            let at: Vec<u32> = super::common::very_deep_positions(base.terms.len()).iter().map(|k| base.terms[*k].id).collect();
             let mut desc = base.clone();
             desc.terms.reverse();
             desc.edges.reverse();
@@ -526,7 +744,9 @@ pub fn run(ctx: &mut Ctx) {
                 ctx.transitions(f.n_steps());
                 match drive::build(f, Mode::Minimal) {
                     Ok(ont) => {
-                        check_against_model(ctx, &ont, &r, Mode::Minimal, "builder", &|| json!({"shape": what, "order": oname}));
+                        let case = || json!({"shape": what, "order": oname});
+                        check_against_model(ctx, &ont, &r, Mode::Minimal, "builder", &case);
+                        check_pairs_at(ctx, &ont, &r, &at, "builder", &case);
                     }
                     Err(e) => {
                         ctx.exec();
@@ -537,7 +757,9 @@ pub fn run(ctx: &mut Ctx) {
             ctx.transitions(desc.n_steps());
             match drive::from_bytes(&encode::encode(&desc, &EncOpts::v(3))) {
                 Ok(Ok(ont)) => {
-                    check_against_model(ctx, &ont, &r, Mode::Defaults, "binary v3", &|| json!({"shape": what, "order": "descending"}));
+                    let case = || json!({"shape": what, "order": "descending"});
+                    check_against_model(ctx, &ont, &r, Mode::Defaults, "binary v3", &case);
+                    check_pairs_at(ctx, &ont, &r, &at, "binary v3", &case);
                 }
                 other => {
                     ctx.exec();
@@ -548,11 +770,61 @@ pub fn run(ctx: &mut Ctx) {
         }
     }
     // ---- sequences of ontologies built one after the other at the same address
-    super::common::ontology_sequences(ctx, "builder", Mode::Minimal, &mut super::common::obs_oracle(Mode::Minimal));
+    super::common::ontology_sequences(ctx, "builder", Mode::Minimal, &mut |ont: &Ontology, r: &RefOnt| obs_and_pairs(ont, r, Mode::Minimal));
+    // ---- two different ontologies alive at the same time (the sequences above drop the first before the second is
+    // built): state shared between instances - a memo keyed by term id that is reset when an ontology is dropped -
+    // shows only here
+    {
+        let dags = all_dags(3);
+        ctx.space("builder/two-ontologies-alive/D3", &format!("{} x {} ordered pairs (A, B) of labelled DAGs over {:?}: A built, B built while A is alive, then A, B, A queried, A dropped, B queried; observation against the model and child_of / parent_of for every ordered pair after every step", dags.len(), dags.len(), &POOL_ROOTS[..3]));
+        for da in &dags {
+            if !ctx.take() {
+                continue;
+            }
+            ctx.state();
+            let fa = Facts::from_dag(da, &POOL_ROOTS);
+            let ra = RefOnt::derive(&fa);
+            for db in &dags {
+                let fb = Facts::from_dag(db, &POOL_ROOTS);
+                let rb = RefOnt::derive(&fb);
+                if fa.edges != fb.edges {
+                    ctx.nontrivial();
+                }
+                ctx.transitions(fa.n_steps() + fb.n_steps());
+                let (Ok(a), Ok(b)) = (drive::build(&fa, Mode::Minimal), drive::build(&fb, Mode::Minimal)) else {
+                    ctx.exec();
+                    ctx.violation("Builder", "[builder] construction fails on valid facts", json!({"first": fa.to_json(), "second": fb.to_json()}));
+                    continue;
+                };
+                let mut a = Some(a);
+                for (step, which) in ["first", "second", "first", "second"].into_iter().enumerate() {
+                    if step == 3 {
+                        drop(a.take());
+                    }
+                    let (ont, r, f) = if which == "first" { (a.as_ref().unwrap(), &ra, &fa) } else { (&b, &rb, &fb) };
+                    ctx.exec();
+                    ctx.validated();
+                    let what = ["first ontology, the second one alive", "second ontology, the first one alive", "first ontology again", "second ontology after the first one was dropped"][step];
+                    match crate::ctx::guard(|| obs_and_pairs(ont, r, Mode::Minimal)) {
+                        Ok(None) => {}
+                        Ok(Some((site, sig, det))) => {
+                            ctx.violation(&site, &format!("[two ontologies alive] {sig}"), json!({"queried": f.to_json(), "queried_as": what, "first": fa.to_json(), "second": fb.to_json(), "difference": det}));
+                            break;
+                        }
+                        Err(p) => {
+                            ctx.violation("read API", "[two ontologies alive] panics", json!({"queried": f.to_json(), "queried_as": what, "first": fa.to_json(), "second": fb.to_json(), "observed": p}));
+                            break;
+                        }
+                    }
+                }
+            }
+            ctx.sample(|| json!({"A": da.describe(), "partners": dags.len(), "ids": &POOL_ROOTS[..3]}));
+        }
+    }
     // ---- 6. (last, because of the garbage it leaves in the allocator) one very large ontology: 70 000 terms in heap shape (term k is_a term k/2), supplied in
     // ascending order and in an order that interleaves the two halves; beyond every 16-bit table size
     {
-        ctx.space("huge/heap-70000", "70 000 terms, term k is_a term k/2 (ids = positions 1..=70000), Builder in ascending and in interleaved-halves order, and decoded from a v3 file (HP:118 is term 118 of the heap) in descending record order: whole observation against the model");
+        ctx.space("huge/heap-70000", "70 000 terms, term k is_a term k/2 (ids = positions 1..=70000), Builder in ascending and in interleaved-halves order, and decoded from a v3 file (HP:118 is term 118 of the heap) in descending record order: observation against the model, child_of / parent_of for every ordered pair of 24 terms along two root-to-leaf routes and across the 16-bit border");
         for variant in 0..3 {
             if !ctx.take() {
                 continue;
@@ -577,9 +849,12 @@ pub fn run(ctx: &mut Ctx) {
             if variant == 2 {
                 f.version = (2024, 2, 29);
                 f.edges.reverse();
+                let r = RefOnt { version: f.version, ..r };
                 match drive::from_bytes(&encode::encode(&f, &EncOpts::v(3))) {
                     Ok(Ok(ont)) => {
-                        check_against_model(ctx, &ont, &RefOnt::derive(&f), Mode::Defaults, "binary v3", &|| json!({"shape": "heap of 70000 terms: term k is_a term k/2", "record_order": "descending"}));
+                        let case = || json!({"shape": "heap of 70000 terms: term k is_a term k/2", "record_order": "descending"});
+                        check_against_model(ctx, &ont, &r, Mode::Defaults, "binary v3", &case);
+                        check_pairs_at(ctx, &ont, &r, &HEAP_PAIRS, "binary v3", &case);
                     }
                     other => {
                         ctx.exec();
@@ -600,6 +875,7 @@ pub fn run(ctx: &mut Ctx) {
                 Ok(ont) => {
                     let case = || json!({"shape": "heap of 70000 terms: term k is_a term k/2", "term_order": if variant == 0 { "ascending" } else { "k, k+35000, k+1, ..." }});
                     check_against_model(ctx, &ont, &r, Mode::Minimal, "builder", &case);
+                    check_pairs_at(ctx, &ont, &r, &HEAP_PAIRS, "builder", &case);
                 }
             }
             ctx.sample(|| json!({"shape": "heap", "n_terms": n, "variant": variant}));
